@@ -12,6 +12,7 @@ CONSTANTS
   BadValues = FALSE
   ValuesPerOp = 2
   EditWhen = "always"
+  Extras = 0
   Deviations = {"UnitSetterTIP"}
 VIEW vw
 INVARIANT Mutual
